@@ -133,12 +133,13 @@ func LiveMPD(a *asset, mpdName string, cfg *ResponseConfig, drmCfg *drm.DrmConfi
 		if as.SegmentTemplate != nil {
 			as.SegmentTemplate.EndNumber = nil // Never output endNumber
 		}
+		if cfg.PatchTTL > 0 && as.Id == nil {
+			// MPD patch requires an id on every AdaptationSet (also text and image)
+			slog.Debug("Inserting ID for AdaptationSet for patch", "contentType", as.ContentType, "id", asIdx+1)
+			as.Id = Ptr(uint32(asIdx + 1))
+		}
 		switch as.ContentType {
 		case "video", "audio":
-			if cfg.PatchTTL > 0 && as.Id == nil {
-				slog.Debug("Inserting ID for AdaptationSet for patch", "contentType", as.ContentType, "id", asIdx+1)
-				as.Id = Ptr(uint32(asIdx + 1))
-			}
 			if cfg.DRM != "" {
 				if a.refRep.PreEncrypted {
 					return nil, fmt.Errorf("drm parameter %q, but pre-encrypted asset %s cannot be encrypted again",
